@@ -51,6 +51,9 @@ class Cache:
         kwds = list(kwargs.keys())
         kwds.sort()
         for k in kwds:
+            # mark keyword arguments, so they cannot be confused with
+            # positional string arguments
+            self.ahash.update(b"kwarg:")
             self._update_hash(k)
             self._update_hash(kwargs[k])
 
@@ -78,11 +81,22 @@ class Cache:
         of things that are convertable to strings.
         """
         if isinstance(arg, np.ndarray):
-            self.ahash.update(arg.view(np.uint8))
+            # The raw bytes alone do not identify an array: include data
+            # type and shape, and support non-contiguous arrays.
+            self.ahash.update(
+                f"ndarray:{arg.dtype.str}:{arg.shape}:".encode("utf-8"))
+            data = np.ascontiguousarray(arg).reshape(-1)
+            self.ahash.update(data.view(np.uint8))
         elif isinstance(arg, list):
+            self.ahash.update(f"list:{len(arg)}:".encode("utf-8"))
             [self._update_hash(a) for a in arg]
         else:
-            self.ahash.update(str(arg).encode('utf-8'))
+            # frame every argument with its type and length, so that
+            # neighboring arguments cannot run into each other
+            data = str(arg).encode('utf-8')
+            self.ahash.update(
+                f"{type(arg).__name__}:{len(data)}:".encode("utf-8"))
+            self.ahash.update(data)
 
     @staticmethod
     def clear_cache():
